@@ -60,6 +60,8 @@ type FrameWorld struct {
 	bindRes   chan error
 	bindErr   error
 	bindDone  bool
+	bindTail, bindGot []byte // peer data sent right behind the reply / what the application read
+	bindTailErr error
 	bindWant  bool
 	bindReply []byte
 	bindAt    int64
@@ -196,6 +198,24 @@ func (w *FrameWorld) startBind() {
 		dc := &client.TCPConn{TCPConn: shimConn(w.rd), ConnectionID: proto.ConnectionID(7)}
 		err := alloc.BindConnection(dc, proto.ConnectionID(7))
 		w.bindErr = err
+		if err == nil && len(w.bindTail) > 0 {
+			// what follows the reply on the connection is the peer's: the application reads it
+			// through the same object, with a buffer of its own choosing
+			sz := int(w.P.Cfg.Extra["read_size"])
+			if sz <= 0 {
+				sz = 4096
+			}
+			buf := make([]byte, sz)
+			_ = dc.SetReadDeadline(time.Now().Add(20 * time.Second))
+			for reads := 0; len(w.bindGot) < len(w.bindTail) && reads < 4*len(w.bindTail)+1000; reads++ {
+				n, rerr := dc.Read(buf)
+				w.bindGot = append(w.bindGot, buf[:n]...)
+				if rerr != nil {
+					w.bindTailErr = rerr
+					break
+				}
+			}
+		}
 		w.bindDone = true
 		_ = alloc.Close()
 	}()
@@ -226,6 +246,11 @@ func (w *FrameWorld) exec(op *Op) {
 		// arm the scripted reply: built from args
 		w.bindWant = op.A.S == "success"
 		w.bindReply = buildBindReply(w.P.Seed, op)
+		if op.A.N > 0 && w.bindWant {
+			// peer data right behind the reply, in the same write
+			w.bindTail = NewRNG(Mix(w.P.Seed, uint64(op.ID), 0x7a11)).Bytes(op.A.N)
+			w.bindReply = append(w.bindReply, w.bindTail...)
+		}
 	case "wait":
 	default:
 		Fatalf("frame world: op %q", op.Kind)
@@ -413,6 +438,10 @@ func (w *FrameWorld) checkBind() {
 	}
 	if !w.bindWant && w.bindErr == nil {
 		w.viol("bindreply-segmentation", kv("how", "accepted-error"), "BindConnection succeeded on an error reply")
+	}
+	if w.bindWant && w.bindErr == nil && len(w.bindTail) > 0 && !w.finSent && string(w.bindGot) != string(w.bindTail) {
+		w.viol("bindreply-segmentation", kv("how", "tail"), "the %d bytes of peer data that followed the ConnectionBind reply were read as %d bytes (err %v) that differ from them (read size %d)",
+			len(w.bindTail), len(w.bindGot), w.bindTailErr, w.P.Cfg.Extra["read_size"])
 	}
 }
 
